@@ -23,6 +23,68 @@ type c16Case struct {
 	Dst    int       `json:"dst"`
 	Src    int       `json:"src"`
 	N      int       `json:"n"`
+	// Two-step cases: the destination is first truncated by Join(Src, N1), then the judged merge is Join(Third, N)
+	TwoStep bool `json:"two_step,omitempty"`
+	N1      int  `json:"n1,omitempty"`
+	Third   int  `json:"third,omitempty"`
+}
+
+// twoStepOne: a size-bounded merge into a log that an earlier size-bounded merge has already truncated.
+// Reference: the same first step followed by the UNBOUNDED second merge on another copy.
+func twoStepOne(p *run.Part, cfg *seqx.Config, cc c16Case) {
+	path := seqx.PathString(cc.Path)
+	desc := fmt.Sprintf("after %s: replica %d truncated by Join(%d, %d), then Join(%d, size=%d)", path, cc.Dst, cc.Src, cc.N1, cc.Third, cc.N)
+	ref := seqx.Replay(cfg, cc.Path)
+	var err error
+	pv, stack := run.Safe(func() {
+		if _, err = ref.Logs[cc.Dst].Join(ref.Logs[cc.Src], cc.N1); err == nil {
+			_, err = ref.Logs[cc.Dst].Join(ref.Logs[cc.Third], -1)
+		}
+	})
+	if pv != nil {
+		p.Violate("bounded2", "C16:panic:two-step-reference:"+run.PanicSite(stack), fmt.Sprintf("%s (second merge unbounded) panicked: %v at %s", desc, pv, stack), cc)
+		return
+	}
+	if err != nil {
+		p.Violate("bounded2", "C16:error:two-step-reference", fmt.Sprintf("%s (second merge unbounded) failed: %v", desc, err), cc)
+		return
+	}
+	full := hashesOf(ref.Logs[cc.Dst].Values().Slice())
+	w := seqx.Replay(cfg, cc.Path)
+	pv, stack = run.Safe(func() {
+		if _, err = w.Logs[cc.Dst].Join(w.Logs[cc.Src], cc.N1); err == nil {
+			_, err = w.Logs[cc.Dst].Join(w.Logs[cc.Third], cc.N)
+		}
+	})
+	p.Add(0, 1, 0, 1)
+	if pv != nil {
+		p.Violate("bounded2", "C16:panic:two-step:"+run.PanicSite(stack), fmt.Sprintf("%s panicked: %v at %s", desc, pv, stack), cc)
+		return
+	}
+	if err != nil {
+		p.Violate("bounded2", "C16:error:two-step", fmt.Sprintf("%s failed: %v", desc, err), cc)
+		return
+	}
+	k := cc.N
+	if k > len(full) {
+		k = len(full)
+	}
+	got := hashesOf(w.Logs[cc.Dst].Values().Slice())
+	un := ref.ML[cc.Dst].Clone()
+	ref.M.Join(un, ref.ML[cc.Src])
+	ref.M.Join(un, ref.ML[cc.Third])
+	if !cfg.HashTie && ref.M.HasTie(un.Set) {
+		if len(got) > cc.N {
+			p.Violate("bounded2", "C16:two-step:too-many", fmt.Sprintf("%s: %d entries kept", desc, len(got)), cc)
+		}
+		return
+	}
+	if !eqStrings(got, full[len(full)-k:]) {
+		p.Violate("bounded2", "C16:two-step:values", fmt.Sprintf("%s: Values()=%s, the last %d of the unbounded second merge are %s", desc, short(ref, got), k, short(ref, full[len(full)-k:])), cc)
+		return
+	}
+	p.Add(0, 0, 1, 0)
+	p.Nontriv(fmt.Sprint("2step", got, cc.N1, cc.N))
 }
 
 func boundedJoinOne(p *run.Part, cfg *seqx.Config, cc c16Case) {
@@ -172,6 +234,16 @@ func c16Probe(p *run.Part, cfg *seqx.Config, seen *sync.Map) func(w *seqx.World,
 				for k := 0; k <= len(union)+1; k++ {
 					boundedJoinOne(p, cfg, c16Case{Config: cfg.Name, Path: c.Path, Dst: d, Src: s, N: k})
 				}
+				// a second size-bounded merge (from the third replica) into the log the first one truncated
+				t := 3 - d - s
+				if n == 3 && len(w.ML[t].Set) > 0 {
+					all := len(union) + len(w.ML[t].Set)
+					for n1 := 1; n1 < len(union); n1++ {
+						for n2 := 0; n2 <= all+1; n2++ {
+							twoStepOne(p, cfg, c16Case{Config: cfg.Name, Path: c.Path, Dst: d, Src: s, N: n2, TwoStep: true, N1: n1, Third: t})
+						}
+					}
+				}
 			}
 		}
 	}
@@ -188,7 +260,11 @@ func c16Searches(p *run.Part, tier string) []*seqx.Search {
 		return &seqx.Search{Part: p, Check: "bounded", Cfg: cfg, Alphabet: Alphabet(3, false), Depth: d, Prefix: Prefixes[prefix], PrefixID: prefix,
 			Deadline: dl, OnState: c16Probe(p, cfg, seen)}
 	}
-	return []*seqx.Search{mk(CfgDef3, "", depth), mk(CfgHash3, "", depth), mk(CfgShared3, "", depth-1), mk(CfgDef3, "+tri4", 1)}
+	// "+stale6": replica 0 has a 3-chain of which replica 2 holds a stale 2-prefix, replica 1 a 6-chain: a first
+	// bounded merge 0<-1 truncates away replica 0's own chain (leaving its reverse index behind), a second one
+	// from the stale replica 2 brings dropped entries back
+	Prefixes["+stale6"] = append(append(append(chain(0, 2), seqx.Op{K: "join", A: 2, B: 0}), seqx.Op{K: "app", A: 0}), chain(1, 6)...)
+	return []*seqx.Search{mk(CfgDef3, "", depth), mk(CfgHash3, "", depth), mk(CfgShared3, "", depth-1), mk(CfgDef3, "+tri4", 1), mk(CfgDef3, "+stale6", 1)}
 }
 
 func init() {
@@ -202,6 +278,10 @@ func init() {
 		var cc c16Case
 		if err := jsonUnmarshal(raw, &cc); err != nil {
 			panic(err)
+		}
+		if cc.TwoStep {
+			twoStepOne(p, Configs[cc.Config], cc)
+			return
 		}
 		boundedJoinOne(p, Configs[cc.Config], cc)
 	}})
